@@ -756,7 +756,8 @@ ALL_PROPS = ['C%02d' % i for i in range(1, 21)]
 for _r in ('R1-1', 'R1-2', 'R1-3', 'R1-4', 'R2-1', 'R2-2', 'R2-3', 'R2-4', 'R3-1', 'R3-2', 'R3-3', 'R3-4', 'R4-1', 'R4-2', 'R4-3', 'R4-4',
            'R6-1', 'R6-2', 'R6-3', 'R6-4', 'R7-1', 'R7-2', 'R7-3', 'R7-4', 'R8-1', 'R8-2', 'R8-3', 'R8-4', 'R9-1', 'R9-2', 'R9-3', 'R9-4',
            'R10-1', 'R10-2', 'R10-3', 'R10-4', 'R11-1', 'R11-2', 'R11-3', 'R11-4', 'R12-1', 'R12-2', 'R12-3', 'R12-4', 'R13-1', 'R13-2', 'R13-3', 'R13-4',
-           'R14-1', 'R14-2', 'R14-3', 'R14-4', 'R15-1', 'R15-2', 'R15-3', 'R15-4', 'R16-1', 'R16-2', 'R16-3', 'R16-4', 'R17-1', 'R17-2', 'R17-3', 'R17-4'):
+           'R14-1', 'R14-2', 'R14-3', 'R14-4', 'R15-1', 'R15-2', 'R15-3', 'R15-4', 'R16-1', 'R16-2', 'R16-3', 'R16-4', 'R17-1', 'R17-2', 'R17-3', 'R17-4',
+           'R18-1', 'R18-2', 'R18-3', 'R18-4', 'R19-1', 'R19-2', 'R19-3', 'R19-4', 'R20-1', 'R20-2', 'R20-3', 'R20-4'):
     CORPUS.append({'id': 'S/' + _r + '-silent', 'props': ALL_PROPS, 'rule': None, 'expect': 'silent', 'edits': [],
                    'patch': 'seeded_benign/%s/patch.diff' % _r, 'tolerate_rekeyed': True})
 
@@ -780,6 +781,21 @@ P('C18-E', 'C17', 'C17.R1'); P('C18-F', 'C10', 'C10.R1')
 P('C19-E', 'C19', 'C19.R1'); P('C19-F', 'C15', 'C15.R6')
 P('C20-E', 'C20', 'C20.R2')
 P('C07-E', 'C07', 'C07.R9')
+
+# ---- the scope stack in another representation (collections.ChainMap, seeded_benign/R18-4): C10 judges it through the class
+# interface; changes seeded into that tree must still be reported
+SDP = 'smartquery/scoped_dict.py'
+CORPUS.append({'id': 'M/c10-chainmap-lookup-outermost-first', 'props': ['C10'], 'rule': 'C10.R1', 'expect': 'violation',
+               'patch': 'seeded_benign/R18-4/patch.diff',
+               'edits': [(SDP, "        for scope in self._chain.maps:\n            if item in scope:\n                return scope[item]\n\n        raise KeyError",
+                          "        for scope in reversed(self._chain.maps):\n            if item in scope:\n                return scope[item]\n\n        raise KeyError")]})
+CORPUS.append({'id': 'M/c10-chainmap-pop-outermost', 'props': ['C10'], 'rule': 'C10.R1', 'expect': 'violation',
+               'patch': 'seeded_benign/R18-4/patch.diff',
+               'edits': [(SDP, "self._chain.maps.pop(0)", "self._chain.maps.pop()")]})
+CORPUS.append({'id': 'M/c10-chainmap-push-below', 'props': ['C10'], 'rule': 'C10.R1', 'expect': 'violation',
+               'patch': 'seeded_benign/R18-4/patch.diff',
+               'edits': [(SDP, "self._chain.maps.insert(0, scope)", "self._chain.maps.append(scope)")]})
+
 B('c02-ply-built-in-helper-of-init', 'C02', edits=[
   (SQP, "        self.lex = lex.lex(\n            module=lexer,\n            optimize=True,\n            debug=False,\n            outputdir=output_dir)\n",
         "        self.lex = self._build_lexer(output_dir)\n"),
